@@ -42,6 +42,11 @@ func txnRegistryCmd(args []string) int {
 	verifhook.SetGate(tr.hook)
 	log.ev(map[string]interface{}{"e": "reset"})
 	ttl, idle := 10*time.Second, 10*time.Second
+	ro := strings.HasSuffix(*scen, "-ro") && !strings.HasPrefix(*scen, "timeout") && !strings.HasPrefix(*scen, "deadline") && !strings.HasPrefix(*scen, "cancel")
+	if ro {
+		// the abandoned transaction is a read-only one: it holds the lock shared, a writer waits behind it all the same
+		*scen = strings.TrimSuffix(*scen, "-ro")
+	}
 	switch *scen {
 	case "idle":
 		idle = 50 * time.Millisecond
@@ -80,15 +85,17 @@ func txnRegistryCmd(args []string) int {
 
 	switch *scen {
 	case "idle", "ttl", "conn", "shutdown":
-		log.ev(map[string]interface{}{"e": "breq", "c": "c1", "mode": "rw"})
-		id, err := reg.Begin(ctxOf("conn1"), eng, false)
+		log.ev(map[string]interface{}{"e": "breq", "c": "c1", "mode": map[bool]string{false: "rw", true: "ro"}[ro]})
+		id, err := reg.Begin(ctxOf("conn1"), eng, ro)
 		if err != nil {
 			log.ev(map[string]interface{}{"e": "error", "msg": "registry begin: " + err.Error()})
 			break
 		}
 		tx, _ := reg.Get(id)
-		tx.Put(conc.Key("k1"), conc.Val("v5"))
-		log.ev(map[string]interface{}{"e": "write", "c": "c1", "k": "k1", "v": "v5"})
+		if !ro {
+			tx.Put(conc.Key("k1"), conc.Val("v5"))
+			log.ev(map[string]interface{}{"e": "write", "c": "c1", "k": "k1", "v": "v5"})
+		}
 		log.ev(map[string]interface{}{"e": "abandon", "c": "c1"})
 		switch *scen {
 		case "idle":
